@@ -18,7 +18,13 @@ func (y CheckWhen) CheckContainerPostConstraints(r ChildRequest, s *Selection) (
 }
 
 func (y CheckWhen) CheckFieldPreConstraints(r *FieldRequest, hnd *ValueHandle) (bool, error) {
-	return y.check(r.Selection, r.Selection, r.Meta)
+	context := r.Selection
+	if context != nil && context.parent != nil && meta.IsLeaf(context.Meta()) {
+		// a selection on the leaf itself (Find("leaf") then Get/Set): the condition is evaluated
+		// where the leaf lives, as it is when the leaf is read through its container
+		context = context.parent
+	}
+	return y.check(context, context, r.Meta)
 }
 
 func (y CheckWhen) CheckListPostConstraints(r ListRequest, child *Selection, key []val.Value) (bool, bool, error) {
